@@ -59,6 +59,13 @@ Theorem C10_expand_keeps_caches : forall vr c s i p v,
 Proof. exact expand_keeps_caches. Qed.
 Print Assumptions C10_expand_keeps_caches.
 
+(* ... the same when the material comes from a multi-phase indexer and brings several new phases at once *)
+Theorem C10_expand_mat_keeps_caches : forall vr c s i src,
+  scc (fst (step vr c s (OMixMat i src))) = scc s /\ smc (fst (step vr c s (OMixMat i src))) = smc s /\
+  scc (fst (step vr c s (OCopyMat i src))) = scc s /\ smc (fst (step vr c s (OCopyMat i src))) = smc s.
+Proof. exact expand_mat_keeps_caches. Qed.
+Print Assumptions C10_expand_mat_keeps_caches.
+
 (* lookup_total + get_refines, single-phase data: for every valid key (spec_chem is defined: an
    ID/alias/CAS, a group, a tuple or list of them, the ellipsis) and after every history the read
    does not raise and returns exactly the listed entries of the dense data, group entries summed *)
@@ -270,6 +277,17 @@ Example C10_expand_mass_nonvacuous :
   [BVal (VNum 1); BVal (VNum 40); BVal (VVec [64; 160; 48]); BPh ["g"; "l"; "s"] [[100; 0; 300]; [1; 2; 3]; [10; 20; 30]];
    BVal (VNum 1); BVal (VNum 4); BVal (VNum 10); BVal (VNum 40); BVal (VNum 300);
    BWr None [[5; 0; 7]; [40; 50; 60]]; BVal (VVec [80; 0; 56])].
+Proof. vm_compute. reflexivity. Qed.
+
+(* an indexer gains two phases at once; the jointly added rows are separate: a write to one does not show in the other *)
+Example C10_joint_expansion_nonvacuous :
+  let ixs := [IM ["g"; "l"] [[1; 2; 3]; [4; 5; 6]]] in
+  let h := [OMixMat 0 [("L", [0; 0; 3]); ("s", [0; 2; 0])]; OSet 0 (KTup [KStr "s"; KStr "A_"]) (DNum 7);
+            OGet 0 (KTup [KStr "L"; KStr "A_"]); OGet 0 (KStr "A_"); OCopyMat 0 [("S", [1; 1; 1]); ("l", [2; 2; 2])]] in
+  snd (run fixed ex_cfg (mkst [] [] ixs) h) =
+  [BPh ["L"; "g"; "l"; "s"] [[0; 0; 3]; [1; 2; 3]; [4; 5; 6]; [0; 2; 0]];
+   BWr None [[0; 0; 3]; [1; 2; 3]; [4; 5; 6]; [7; 2; 0]]; BVal (VNum 0); BVal (VNum 12);
+   BPh ["L"; "S"; "g"; "l"; "s"] [[0; 0; 0]; [1; 1; 1]; [0; 0; 0]; [2; 2; 2]; [0; 0; 0]]].
 Proof. vm_compute. reflexivity. Qed.
 
 (* the code as first found in /repo violates the same statements (one witness per defect):
